@@ -6,6 +6,7 @@ from .. import gen as G
 from .. import universal as U
 
 ID = 'C13'
+TECHNIQUE = 'runtime monitoring: bitwise operator / NumPy bitwise function events judged against the n_word-bit pattern model (Python ints); in-place indexed forms checked on the stored word'
 TITLE = 'bitwise ~ & | ^ on the n_word-bit pattern'
 RULE = ('events __invert__/__and__/__or__/__xor__ (and reflected forms with an integer mask): the result must have x\'s format and the code whose '
         'n_word-bit pattern is NOT/AND/OR/XOR of the operands\' patterns (code mod 2^n_word; masks reduced mod 2^n_word), x unchanged; operands of '
